@@ -22,6 +22,7 @@ enum ArrClass {
     ARR_POOL,           // drawn from a pool whose size sits near a decision threshold
     ARR_LONGRUNS,       // one to six runs of equal values filling the whole array (bulk fill / copy paths)
     ARR_BIGSTEP,        // non-decreasing small steps with one to three giant steps (2^31, 2^32, 2^63, ...)
+    ARR_PERIODIC,       // records of P slots: one slot constant, the others noisy (strided samples alias)
     ARR_NCLASSES
 };
 
@@ -205,6 +206,15 @@ inline std::vector<uint64_t> gen_array(Rng &r, size_t n, int cls) {
             cur = cur + step < cur ? ~0ULL : cur + step; // saturate
             v[i] = cur;
         }
+        break;
+    }
+    case ARR_PERIODIC: {
+        static const size_t periods[] = {10, 10, 10, 5, 2, 8, 16, 4, 20, 100};
+        size_t P = r.pick(periods);
+        size_t phase = r.chance(2, 3) ? 0 : r.below(P);
+        uint64_t c = r.chance(1, 2) ? r.below(1000) : magnitude(r);
+        bool small = r.chance(1, 2);
+        for (size_t i = 0; i < n; i++) v[i] = (i % P) == phase ? c : (small ? r.below(60000) : r.next());
         break;
     }
     case ARR_ZERORUNS: {
